@@ -173,11 +173,12 @@ def confirm_worker(analysis: Analysis, spec) -> dict:
         kind, s, v = out
         stores = [e for e in s.events if e.kind == "setitem"]
         has_desired = ("in", args[0].key(), ns) in s.facts
+        no_desired = ("notin", args[0].key(), ns) in s.facts or ("falsy", ns) in s.facts
         known_child = ("in", args[0].key(), ch) in s.facts
         val_store = [e for e in stores if isinstance(e.recv, V) and e.recv.key() == ("attr", ("item", ch, args[0].key()), "values")]
         clr = [e for e in stores if isinstance(e.recv, V) and e.recv.key() == ("attr", ("item", ns, args[0].key()), "values")]
         ok_clear = all(e.args[0].key() == args[1].key() and isinstance(e.args[1], Const) and e.args[1].value is None for e in clr)
-        rows.append({"kind": kind, "has_desired": has_desired, "known_child": known_child, "stored": len(val_store), "cleared": len(clr), "ok_clear": ok_clear, "witness": describe_path(out)})
+        rows.append({"kind": kind, "has_desired": has_desired, "no_desired": no_desired, "known_child": known_child, "stored": len(val_store), "cleared": len(clr), "ok_clear": ok_clear, "witness": describe_path(out)})
     return {"rows": rows}
 
 
@@ -229,15 +230,74 @@ def accept_worker(analysis: Analysis, spec) -> dict:
     return {"ctx": ctx.name, "rows": rows}
 
 
-def ctor_validates_with_gateway_version(analysis: Analysis, res: RuleResult) -> None:
+def ctor_validates_with_gateway_version(analysis: Analysis, res: RuleResult, rule: str = "C08-R5") -> None:
     info = analysis.p.func(CTOR)
     calls = [c for c in common.calls_in(info.node, "validate")]
     ok = bool(calls) and all(c.args and unparse(c.args[0]) == "self.protocol_version" for c in calls)
-    res.add("C08-R5", f"{CTOR} / validates against the gateway's protocol version", ok, common.where(analysis, info, info.node), "msg.validate(self.protocol_version): flush time and call time use the same version source" if ok else "the command constructor does not validate against the gateway's own version")
+    res.add(rule, f"{CTOR} / validates against the gateway's protocol version", ok, common.where(analysis, info, info.node), "msg.validate(self.protocol_version): flush time and call time use the same version source" if ok else "the command constructor does not validate against the gateway's own version")
     body = info.node.body
     last = body[-1]
     okr = isinstance(last, ast.Return) and any(isinstance(s, ast.Expr) and isinstance(s.value, ast.Call) and unparse(s.value.func).endswith(".validate") for s in body)
-    res.add("C08-R5", f"{CTOR} / the command is validated before it is returned", okr, common.where(analysis, info, last), "validate() precedes the return")
+    res.add(rule, f"{CTOR} / the command is validated before it is returned", okr, common.where(analysis, info, last), "validate() precedes the return")
+
+
+def confirmation_rule(analysis: Analysis, res: RuleResult, rule: str) -> None:
+    last = analysis.versions[-1]
+    for summ in common.pmap(analysis, confirm_worker, [(last, "serial", "sync")]):
+        seen = False
+        for r in summ["rows"]:
+            if r["kind"] != "val":
+                res.add(rule, "sensor:Sensor.update_child_value / total", False, "mysensors/sensor.py", "raises", r["witness"])
+                continue
+            if r["known_child"] and r["has_desired"]:
+                seen = True
+                ok = r["cleared"] == 1 and r["ok_clear"] and r["stored"] == 1
+                res.add(rule, "sensor:Sensor.update_child_value / a reported value clears the desired entry of the same (child, value type)", ok, "mysensors/sensor.py", "new_state[child].values[value_type] = None" if ok else f"{r['cleared']} clearing store(s), matching key/None: {r['ok_clear']}", r["witness"] if not ok else None)
+            elif r["cleared"]:
+                res.add(rule, "sensor:Sensor.update_child_value / desired entries are cleared only for a reported value of a known child", False, "mysensors/sensor.py", "clears a desired entry on a path without a report", r["witness"])
+            if r["known_child"]:
+                decided = r["has_desired"] or r["no_desired"]
+                res.add(rule, "sensor:Sensor.update_child_value / every report of a known child consults the pending desired state", decided and r["stored"] == 1, "mysensors/sensor.py", "the reported value is stored and the desired-state test is reached on every path" if decided and r["stored"] == 1 else "a report of a known child can return without storing the value or without confirming a pending desired value (the stale desired value is then re-sent at every wake-up and answered to value requests)", r["witness"] if not (decided and r["stored"] == 1) else None)
+        if not seen:
+            res.add(rule, "sensor:Sensor.update_child_value / a reported value clears the desired entry of the same (child, value type)", False, "mysensors/sensor.py", "no path on which a reported value clears the pending desired value")
+    # nothing else clears a desired entry
+    for mod in common.core_modules(analysis):
+        for node in ast.walk(mod.tree):
+            if isinstance(node, ast.Assign) and isinstance(node.value, ast.Constant) and node.value.value is None:
+                for t in node.targets:
+                    if isinstance(t, ast.Subscript) and unparse(t.value).endswith(".values"):
+                        fn = common.func_of_node(analysis, mod, node)
+                        res.add(rule, f"{fn} / only update_child_value clears desired entries", fn == "sensor:Sensor.update_child_value", common.where(analysis, mod, node), unparse(node))
+
+
+def lookup_rule(analysis: Analysis, res: RuleResult, rule: str, rule_total: str) -> None:
+    last = analysis.versions[-1]
+    for summ in common.pmap(analysis, lookup_worker, [(last, "serial", "sync")]):
+        pending_rows = [r for r in summ["rows"] if r["desired_pending"]]
+        if not pending_rows:
+            res.add(rule, "sensor:Sensor.get_desired_value / pending desired value is answered first", False, "mysensors/sensor.py", "no path returns a pending desired value")
+        for r in summ["rows"]:
+            if r["kind"] != "val":
+                res.add(rule_total, "sensor:Sensor.get_desired_value / cannot raise", False, "mysensors/sensor.py", f"the value-request lookup can raise ({r['ret']})", r["witness"])
+                continue
+            if r["desired_pending"]:
+                ok = ".new_state" in r["ret"]
+                res.add(rule, "sensor:Sensor.get_desired_value / pending desired value is answered first", ok, "mysensors/sensor.py", f"returns {r['ret']}", r["witness"] if not ok else None)
+            else:
+                ok = r["ret"] == "None" or (".children" in r["ret"] and ".new_state" not in r["ret"])
+                res.add(rule, "sensor:Sensor.get_desired_value / otherwise the reported value (or nothing)", ok, "mysensors/sensor.py", f"returns {r['ret']}", r["witness"] if not ok else None)
+
+
+def accept_rule(analysis: Analysis, res: RuleResult, rule: str) -> None:
+    vers = [v for v in analysis.versions if v >= "2.0"] or analysis.versions[-1:]
+    for summ in common.pmap(analysis, accept_worker, [(v, "serial", "sync") for v in vers]):
+        if not summ["rows"]:
+            raise AnalysisError("C08-R5: no path of set_child_value records a desired value")
+        for r in summ["rows"]:
+            ok = r["ctor_done"] and r["ctor_args_ok"]
+            res.add(rule, "__init__:Gateway.set_child_value / desired value recorded only after the flush's constructor accepted it", ok, "mysensors/__init__.py", "create_message_to_set_sensor_value(sensor, child, value_type, value) completed before the store" if ok else "a desired value is recorded without having been validated the way the flush will build it: accepted at call time, may fail at wake-up", r["witness"] if not ok else None, context=summ["ctx"])
+            res.add(rule, "__init__:Gateway.set_child_value / records the caller's value under the caller's value type", r["stored_ok"], "mysensors/sensor.py", "values[value_type] = value", r["witness"] if not r["stored_ok"] else None, context=summ["ctx"])
+    ctor_validates_with_gateway_version(analysis, res, rule)
 
 
 def run(analysis: Analysis, tier: str) -> RuleResult:
@@ -267,51 +327,9 @@ def run(analysis: Analysis, tier: str) -> RuleResult:
         for p, w in probs.items():
             res.add("C08-R2", f"{FLUSH} / {p}", False, "mysensors/handler.py", p, w, context=summ["ctx"])
     desired_none_skipped(analysis, res)
-    last = analysis.versions[-1]
-    for summ in common.pmap(analysis, confirm_worker, [(last, "serial", "sync")]):
-        seen = False
-        for r in summ["rows"]:
-            if r["kind"] != "val":
-                res.add("C08-R3", "sensor:Sensor.update_child_value / total", False, "mysensors/sensor.py", "raises", r["witness"])
-                continue
-            if r["known_child"] and r["has_desired"]:
-                seen = True
-                ok = r["cleared"] == 1 and r["ok_clear"] and r["stored"] == 1
-                res.add("C08-R3", "sensor:Sensor.update_child_value / a reported value clears the desired entry of the same (child, value type)", ok, "mysensors/sensor.py", "new_state[child].values[value_type] = None" if ok else f"{r['cleared']} clearing store(s), matching key/None: {r['ok_clear']}", r["witness"] if not ok else None)
-            elif r["cleared"]:
-                res.add("C08-R3", "sensor:Sensor.update_child_value / desired entries are cleared only for a reported value of a known child", False, "mysensors/sensor.py", "clears a desired entry on a path without a report", r["witness"])
-        if not seen:
-            res.add("C08-R3", "sensor:Sensor.update_child_value / a reported value clears the desired entry of the same (child, value type)", False, "mysensors/sensor.py", "no path on which a reported value clears the pending desired value")
-    # nothing else clears a desired entry
-    for mod in common.core_modules(analysis):
-        for node in ast.walk(mod.tree):
-            if isinstance(node, ast.Assign) and isinstance(node.value, ast.Constant) and node.value.value is None:
-                for t in node.targets:
-                    if isinstance(t, ast.Subscript) and unparse(t.value).endswith(".values"):
-                        fn = common.func_of_node(analysis, mod, node)
-                        res.add("C08-R3", f"{fn} / only update_child_value clears desired entries", fn == "sensor:Sensor.update_child_value", common.where(analysis, mod, node), unparse(node))
-    for summ in common.pmap(analysis, lookup_worker, [(last, "serial", "sync")]):
-        pending_rows = [r for r in summ["rows"] if r["desired_pending"]]
-        if not pending_rows:
-            res.add("C08-R4", "sensor:Sensor.get_desired_value / pending desired value is answered first", False, "mysensors/sensor.py", "no path returns a pending desired value")
-        for r in summ["rows"]:
-            if r["kind"] != "val":
-                res.add("C08-R6", "sensor:Sensor.get_desired_value / cannot raise", False, "mysensors/sensor.py", f"the value-request lookup can raise ({r['ret']})", r["witness"])
-                continue
-            if r["desired_pending"]:
-                ok = ".new_state" in r["ret"]
-                res.add("C08-R4", "sensor:Sensor.get_desired_value / pending desired value is answered first", ok, "mysensors/sensor.py", f"returns {r['ret']}", r["witness"] if not ok else None)
-            else:
-                ok = r["ret"] == "None" or (".children" in r["ret"] and ".new_state" not in r["ret"])
-                res.add("C08-R4", "sensor:Sensor.get_desired_value / otherwise the reported value (or nothing)", ok, "mysensors/sensor.py", f"returns {r['ret']}", r["witness"] if not ok else None)
-    for summ in common.pmap(analysis, accept_worker, [(v, "serial", "sync") for v in vers]):
-        if not summ["rows"]:
-            raise AnalysisError("C08-R5: no path of set_child_value records a desired value")
-        for r in summ["rows"]:
-            ok = r["ctor_done"] and r["ctor_args_ok"]
-            res.add("C08-R5", "__init__:Gateway.set_child_value / desired value recorded only after the flush's constructor accepted it", ok, "mysensors/__init__.py", "create_message_to_set_sensor_value(sensor, child, value_type, value) completed before the store" if ok else "a desired value is recorded without having been validated the way the flush will build it: accepted at call time, may fail at wake-up", r["witness"] if not ok else None, context=summ["ctx"])
-            res.add("C08-R5", "__init__:Gateway.set_child_value / records the caller's value under the caller's value type", r["stored_ok"], "mysensors/sensor.py", "values[value_type] = value", r["witness"] if not r["stored_ok"] else None, context=summ["ctx"])
-    ctor_validates_with_gateway_version(analysis, res)
+    confirmation_rule(analysis, res, "C08-R3")
+    lookup_rule(analysis, res, "C08-R4", "C08-R6")
+    accept_rule(analysis, res, "C08-R5")
     res.units = {"flush_paths": n_paths, "source_digest": analysis.p.digest()}
     res.not_decided = ["exactly-once as a count over arbitrary histories"]
     res.trusted = ["sa/extmodel.py deque/dict models", "INV-KEY-ID"]
